@@ -46,7 +46,9 @@ CLAIMED = {
     "C07": ("Lean 4 proof: BFS distance monotonicity and listing order, DFS white-path segments, explicit-stack DFS = recursive DFS on reversed lists; correspondence on exhaustive ordered multigraphs",
             "Theorems C07_bft_monotone_distance (a hop-distance function exists for which every listed vertex is at its exact shortest distance and the distance never "
             "decreases along the output), C07_bft_listing_order, C07_dftRec_segment (pre-order: the segment after v is exactly what is reachable avoiding "
-            "everything listed before), C07_dftRec_unfold, C07_dftIter_eq_dftRec_reversed, C07_function_of_link_order. Tie: as C06, comparing SEQUENCES, "
+            "everything listed before), C07_dftRec_unfold, C07_dftIter_eq_dftRec_reversed, C07_function_of_link_order; rebuilding with fresh objects (EG/Props/C07Rename.lean): "
+            "C07_bft_rename_equivariant, C07_dftRecursive_rename_equivariant, C07_dftIterative_rename_equivariant (under ANY injective renaming of the vertices the listing of the renamed graph is the "
+            "image, position by position, of the listing of the original: the order depends on link order alone, not on object identity). Tie: as C06, comparing SEQUENCES, "
             "plus an independent textbook BFS/DFS oracle in Python and a repeat-call check.",
             "'Rebuild the same graph in the same order' is by construction in the model (outputs are functions of nb/inU); on the real code it is exercised by re-running scripts with fresh objects.",
             "DESIGN.md 3/C07"),
